@@ -68,6 +68,19 @@ def oracle(ctx, s, res):
         return
     if r2["aliases"]:
         ctx.fail("alias-left", case, expected={}, observed=r2["aliases"], what="aliases remain after unsetup")
+        return
+    # the aliases of the shell that sources the two commands (app.setup: define Eups.aliases, remove the names in
+    # Eups.oldAliases that are not defined again), starting without any
+    shell = {}
+    for r in (r1, r2):
+        for k in r.get("old_aliases", []):
+            if k not in r["aliases"]:
+                shell.pop(k, None)
+        shell.update(r["aliases"])
+    if shell:
+        ctx.fail("alias-left", case, expected={}, observed=shell,
+                 what="after setup + unsetup of %s the shell still has the aliases %r (defined by the setup: %r)" % (
+                     r1["request"]["name"], sorted(shell), r1["aliases"]))
 
 
 def m_envset_preexisting(f):
@@ -82,8 +95,16 @@ def run(ctx):
                 "sets): setup X (bare / explicit version / unknown version) then unsetup X; non-trivial = the setup "
                 "succeeds and sets up at least two products; distinct = distinct (world, requests, env0)")
     ctx.trusted_base = common.COMMON_TRUSTED + [
-        "the version resolver is outside Model/Setup.v (decisions of the real resolver are fed to the model)"]
-    ctx.assumptions = ["one stack, one flavor, declared products only", "WF2 of Proofs/SetupInv.v for the theorems"]
+        "two model runs per request: Model/Setup.v fed with the decisions of the real resolver (captured by a spy), and "
+        "the composed model Model/SetupFull.v (setup + the resolver of C03) fed with NO decisions; compared: success, "
+        "environment, aliases, decisions",
+        "the shell's alias state across the two commands is reconstructed from Eups.aliases / Eups.oldAliases the way "
+        "app.setup emits them (define, then remove the old names that are not defined again)"]
+    ctx.assumptions = ["one stack, one flavor, declared products only", "WF2 of Proofs/SetupInv.v for the theorems",
+                       "unsetup_inverts_setup: the hypotheses of closure_exact (conflict_free: no product requested in two "
+                       "versions; no --max-depth / --just / -j line / keep; wf_db; total order on the version names), Inv "
+                       "and fresh_for of the start state (no variable or alias that a reachable product owns is set: "
+                       "outside it finding D11 applies); the code after the fix of D36 (popStack env restores the aliases)"]
     ctx.check_theorems()
     scenarios = S.corpus("C02") + [gen_scenario(ctx.rng) for _ in range(ctx.size(200, 3000))]
     for s in scenarios[:3]:
